@@ -856,8 +856,135 @@ def subprocess_history(mode, hist):
     return json.loads(r.stdout.strip().splitlines()[-1])
 
 
+# ---- the context as a stack machine ---------------------------------------------------------------------------
+# Model: a stack of filters.  Events: enter(F) = C7NContext(filter=F).__enter__(), exit = __exit__ of the innermost
+# open context, eval(F) / evalerr(F) = C7N_Interpreted_Runner.evaluate(activation, filter=F) succeeding / failing,
+# eval(-) / evalerr(-) = evaluate(activation) without a filter inside an open context.  The SAME filter object may be
+# entered again while it is current (a resource loop wrapped in a context that also passes filter= to evaluate()).
+# Every event sequence up to the length bound with at most three open contexts is run on the real objects; after every
+# event the module global must name the model's top of stack (None when empty), and during an evaluation the probe
+# function must see the evaluation's own filter (the innermost open one for eval(-)).
+STACK_EVENTS = [("enter", "F1"), ("enter", "F2"), ("exit", None), ("eval", "F1"), ("eval", "F2"), ("eval", None), ("evalerr", "F1"), ("evalerr", None)]
+STACK_DEPTH = 3
+_STACK_SEQS = {}
+
+
+def stack_sequences(maxlen):
+    if maxlen not in _STACK_SEQS:
+        out = []
+
+        def go(seq, depth):
+            if seq:
+                out.append(tuple(seq))
+            if len(seq) == maxlen:
+                return
+            for ev in STACK_EVENTS:
+                k, f = ev
+                if k == "exit" and depth == 0:
+                    continue
+                if k == "enter" and depth == STACK_DEPTH:
+                    continue
+                if k in ("eval", "evalerr") and f is None and depth == 0:
+                    continue                      # no context at all: the property does not rule on it
+                go(seq + [ev], depth + (1 if k == "enter" else -1 if k == "exit" else 0))
+        go([], 0)
+        _STACK_SEQS[maxlen] = out
+    return _STACK_SEQS[maxlen]
+
+
+def stack_bound(tier):
+    return 6 if tier == "thorough" else 5
+
+
+def run_stack_sequence(seq):
+    """On the real objects, in a process whose context is None.  -> list of deviations [(event index, what, expected, got)], final state."""
+    H = Hist.get()
+    c7nlib, abst = H.c7nlib, H.abst
+    CELEvalError = H.celpy.CELEvalError
+    model, opened, devs = [], [], []
+    for i, (k, fname) in enumerate(seq):
+        if k == "enter":
+            c = c7nlib.C7NContext(filter=H.filters[fname])
+            c.__enter__()
+            opened.append(c)
+            model.append(fname)
+        elif k == "exit":
+            opened.pop().__exit__(None, None, None)
+            model.pop()
+        else:
+            prog = H.progs["c7n", "ok" if k == "eval" else "celerr"]
+            del _SEEN[:]
+            try:
+                r = prog.evaluate({}, filter=H.filters[fname]) if fname is not None else prog.evaluate({})
+                out = "value" if isinstance(r, int) and bool(r) else f"value?{r!r}"[:40]
+            except CELEvalError:
+                out = "E"
+            except Exception as ex:  # noqa
+                out = "X:" + type(ex).__name__
+            want_seen = f"ctx({fname if fname is not None else model[-1]})"
+            if list(_SEEN) != [want_seen]:
+                devs.append([i, "seen-during-evaluation", want_seen, list(_SEEN)])
+            want_out = "value" if k == "eval" else "E"
+            if out != want_out:
+                devs.append([i, "outcome", want_out, out])
+        want = f"ctx({model[-1]})" if model else "None"
+        got = abst(c7nlib.C7N)
+        if got != want:
+            devs.append([i, "state-after-" + k, want, got])
+            break                                  # model and implementation have parted: later events say nothing new
+    # unwind whatever is still open (innermost first), then the context must be None again
+    while opened:
+        opened.pop().__exit__(None, None, None)
+    final = abst(c7nlib.C7N)
+    return devs, final
+
+
+def stack_shard(task):
+    lo, hi, tier = task
+    part = runner.Part()
+    seqs = stack_sequences(stack_bound(tier))[lo:hi]
+
+    def body():
+        res = []
+        for s in seqs:
+            devs, final = run_stack_sequence(s)
+            res.append([devs, final])
+            if final != "None":
+                break                              # this child's context is spoilt: stop here, the parent forks another
+        return res
+    done = 0
+    while done < len(seqs):
+        chunk = seqs[done:]
+        seqs_backup, seqs = seqs, chunk
+        res = _in_fork(body)
+        seqs = seqs_backup
+        for s, (devs, final) in zip(chunk, res):
+            part.case()
+            part.extra["stack_events"] += len(s)
+            part.outcome("stack:" + ("ok" if not devs and final == "None" else "deviation"))
+            if final != "None" and not devs:
+                devs = [[len(s), "state-after-unwinding", "None", final]]
+            if devs:
+                i, what, want, got = devs[0]
+                # confirm alone in a fresh fork of the never-evaluating worker
+                seqs = [s]
+                again = _in_fork(body)[0]
+                seqs = seqs_backup
+                if not again[0] and again[1] == "None":
+                    raise runner.HarnessError(f"context stack deviation did not reproduce alone: {s} {devs}")
+                rel = lambda x, top: x if x in ("None",) or not isinstance(x, str) else ("own" if x == top else "other")  # noqa: E731
+                ev = s[i] if i < len(s) else ("unwind", None)
+                same = any(s[j][0] == "enter" and s[j][1] == ev[1] for j in range(i)) if ev[1] else False
+                sig = f"ctx-stack:{what}:{ev[0]}({'same-filter-as-an-open-context' if same else ('no-filter' if ev[1] is None else 'filter')}):expected={'None' if want == 'None' else 'context'}:got={'None' if got in ('None', []) else 'context-or-other'}"
+                part.violation("context-stack", sig, {"part": "stack", "events": [list(e) for e in s]},
+                               f"event {i} {ev} of {list(s)}: {what}: expected {want}, got {got}")
+        done += len(res)
+    part.space("context-stack-sequences", 0, len(seqs))
+    return part
+
+
 def hist_task(task):
-    return {"chain": hist_shard, "fresh": histfresh_shard, "sub": histsub_shard}[task[0]](task[1:])
+    return {"chain": hist_shard, "fresh": histfresh_shard, "sub": histsub_shard, "stack": stack_shard}[task[0]](task[1:])
 
 
 def histsub_shard(task):
@@ -932,7 +1059,11 @@ def run(ctx):
     tasks = [("sub", m, h) for m, h in subs]
     tasks += [("chain", lo, hi, tier) for lo, hi in runner.shards(nh, 2 * runner.NPROC)]
     tasks += [("fresh", lo, hi, tier) for lo, hi in runner.shards(nf, 2 * runner.NPROC)]
+    nstack = len(stack_sequences(stack_bound(tier)))
+    tasks += [("stack", lo, hi, tier) for lo, hi in runner.shards(nstack, 2 * runner.NPROC)]
     ctx.run_shards(hist_task, tasks)
+    ctx.part.spaces["context-stack-sequences"]["cardinality"] = nstack
+    ctx.part.spaces["context-stack-sequences"]["bound"] = f"length<={stack_bound(tier)}, <= {STACK_DEPTH} open contexts"
     ctx.part.spaces["context-histories"]["cardinality"] = nh
     ctx.part.spaces["context-histories"]["bound"] = "length<=" + "/".join(f"{m}:{mode_bound(m, tier)}" for m in MODES)
     ex = ctx.part.extra
@@ -951,13 +1082,15 @@ def run(ctx):
         "fresh_fork_histories_validated": ex.pop("fresh_fork_histories_validated", 0),
         "fresh_fork_bound": fresh_bound(tier),
         "chain_forks": ex.pop("chain_forks", 0),
+        "context_stack_model": {"events": [f"{k}({f or '-'})" for k, f in STACK_EVENTS], "sequences": nstack, "max_length": stack_bound(tier), "max_open_contexts": STACK_DEPTH,
+                                "model_states": sum(len(HFILTERS) ** d for d in range(STACK_DEPTH + 1)), "transitions_checked_against_impl": ex.pop("stack_events", 0)},
         "history_bound": {"events": len(HSYMBOLS), "length_per_install_mode": {m: mode_bound(m, tier) for m in MODES}},
     })
     if ctx.coverage_extra["fresh_fork_histories"] != nf:
         raise runner.HarnessError(f"ran {ctx.coverage_extra['fresh_fork_histories']} fresh-fork histories, expected {nf}")
     if ctx.coverage_extra["histories"] != nh:
         raise runner.HarnessError(f"ran {ctx.coverage_extra['histories']} histories, cardinality is {nh}")
-    _run_helpers(ctx, tier, nh, only)
+    _run_helpers(ctx, tier, nh + nstack, only)
 
 
 def _run_helpers(ctx, tier, nh, only):
@@ -983,6 +1116,14 @@ def _run_helpers(ctx, tier, nh, only):
 def replay(w):
     wit = w["witness"]
     print("replaying", json.dumps(wit))
+    if wit["part"] == "stack":
+        Hist.get()
+        seq = [tuple(e) for e in wit["events"]]
+        devs, final = _in_fork(lambda: list(run_stack_sequence(seq)))
+        print("deviations:", devs, "context after unwinding:", final)
+        bad = bool(devs) or final != "None"
+        print("REPRODUCED" if bad else "not reproduced")
+        return 1 if bad else 0
     if wit["part"] == "helper":
         part = runner.Part()
         exp = expect(wit["family"], wit["helper"], wit["args"])
